@@ -13,6 +13,8 @@ import Vegeta.Proofs.CodecJSONResult
 import Vegeta.Proofs.CodecCSVResult
 import Vegeta.Proofs.CodecRFC3339
 import Vegeta.Proofs.GobValueResult
+import Vegeta.Proofs.EncodeCalls
+import Vegeta.Proofs.EncodeCmdCut
 import Vegeta.Extracted.Facts
 namespace Vegeta.Props.C09
 open Vegeta.Go Vegeta.Model.Codec Vegeta.Model.GobFrame Vegeta.Proofs.GobFrame Vegeta.Proofs.Codec
@@ -153,6 +155,90 @@ theorem json_encode_emits_whole_records (offMin : Int) (rs : List Result) (k : N
     (h : encodeJSONAll offMin (rs.take k) = some b) :
     ((rs.take k).foldl (jsonEncodeCall offMin) {}).out = b ∧
     ((rs.take k).foldl (jsonEncodeCall offMin) {}).buf = [] := json_calls_whole_records offMin (rs.take k) b h
+
+/-! ### Encoders called repeatedly, with failing calls in between (Model/EncodeCmd.lean) -/
+
+section CallSequences
+open Vegeta.Model.EncodeCmd Vegeta.Model.GobValue Vegeta.Proofs.EncodeCmd Vegeta.Proofs.Gob
+
+/-- **each `Encode` call appends exactly one whole record, or nothing** — lifted to call SEQUENCES: after any
+sequence of calls (results that can be encoded or not, the caller going on after errors) the writer holds
+the records of the calls that returned nil, in call order (gob: after the type definitions, sent once by
+the first call even if that call fails), and nothing else. -/
+theorem encoder_calls_emit_whole_records (c : Codec) (args : List (Zone × Result)) :
+    (encCalls c {} args).1 =
+      (if c = .gob ∧ args ≠ [] then preamble else []) ++ (okCalls c {} args).flatMap (recordOf c) :=
+  enc_calls_whole_records c args
+
+/-- **which calls return nil**: CSV — all; JSON — exactly the calls before the first result that cannot be
+marshalled: the unchanged JSON encoder STAYS FAILED (jwriter's sticky error), every later call returns the
+error and writes nothing; gob — exactly the calls whose result can be encoded, a failure leaves no trace. -/
+theorem encoder_calls_outcomes (args : List (Zone × Result)) :
+    (encCalls .csv {} args).2 = args.map (fun _ => true) ∧
+    (encCalls .json {} args).2 =
+      (args.takeWhile (fun a => (encodeJSON (zoneMin a.1) a.2).isSome)).map (fun _ => true) ++
+      (args.dropWhile (fun a => (encodeJSON (zoneMin a.1) a.2).isSome)).map (fun _ => false) ∧
+    (encCalls .gob {} args).2 = args.map (fun a => (valuePayload a.1 a.2).isSome) :=
+  ⟨enc_calls_ok_csv args, enc_calls_ok_json args, enc_calls_ok_gob args⟩
+
+/-- … hence what is at the writer after ANY call sequence decodes to exactly the results of the successful
+calls, then end-of-stream (gob: an unexpected end if calls were made but none succeeded — only type
+definitions are there). This is the failing-encode oracle of the harness as a corollary. -/
+theorem encoder_calls_decode (args : List (Zone × Result)) :
+    ((∀ a ∈ args, ReprCSVResult a.2) →
+      decodeCSV (encCalls .csv {} args).1 = (args.map (fun a => csvDecoded a.2), .eof)) ∧
+    ((∀ a ∈ okCalls .json {} args, ReprJSONResult a.2 ∧ (zoneMin a.1).natAbs < 1440) →
+      decodeJSON (encCalls .json {} args).1 = ((okCalls .json {} args).map (·.2), .eof)) ∧
+    ((∀ a ∈ okCalls .gob {} args, ReprGobResult a.1 a.2 ∧ ZoneOK a.1) →
+      decodeGob (encCalls .gob {} args).1 =
+        ((okCalls .gob {} args).map (fun a => gobDecoded a.2),
+         if args = [] ∨ okCalls .gob {} args ≠ [] then .eof else .err)) :=
+  ⟨enc_calls_decode_csv args, enc_calls_decode_json args, enc_calls_decode_gob args⟩
+
+/-! ### The `encode` command on truncated inputs -/
+
+/-- **`vegeta encode` on a JSON input cut after ANY number of bytes**, any target encoding: the command
+returns nil and what it wrote decodes to exactly the records whose line lies wholly before the cut. -/
+theorem encode_cmd_cut_json (dst : Codec) (zs zd : Zone) (rs : List Result)
+    (hs : ∀ r ∈ rs, ReprFor .json zs r) (hd : ∀ r ∈ rs, ReprFor dst zd r) (k : Nat) :
+    ∃ lines, encodeJSONAll (zoneMin zs) rs = some lines.flatten ∧ lines.length = rs.length ∧
+      (encodeCmd .json dst zd (lines.flatten.take k)).2 = true ∧
+      decodeWith dst (encodeCmd .json dst zd (lines.flatten.take k)).1 =
+        ((rs.take (linesBefore lines k)).map (decodedBy dst), .eof) :=
+  encodeCmd_cut_json dst zs zd rs hs hd k
+
+/-- **… on a gob input cut after ANY number of bytes**: whatever the command returns (the decoder's error when
+the cut is inside a message), what it wrote decodes to exactly the records whose value message lies wholly
+before the cut — every record decoded before the error has been encoded (decode one, encode one). -/
+theorem encode_cmd_cut_gob (dst : Codec) (zs zd : Zone) (rs : List Result)
+    (hs : ∀ r ∈ rs, ReprFor .gob zs r) (hd : ∀ r ∈ rs, ReprFor dst zd (gobDecoded r)) (k : Nat) :
+    ∃ ps, valueFrames zs rs = some ps ∧ ps.length = rs.length ∧
+      decodeWith dst (encodeCmd .gob dst zd ((encodeFrames (preFrames ++ ps)).take k)).1 =
+        ((rs.take ((cutFrames (preFrames ++ ps) k).1.length - 4)).map (decodedBy dst ∘ gobDecoded), .eof) ∧
+      (encodeCmd .gob dst zd ((encodeFrames (preFrames ++ ps)).take k)).2 =
+        (gobTerm (cutFrames (preFrames ++ ps) k).1 (cutFrames (preFrames ++ ps) k).2 true == .eof) :=
+  encodeCmd_cut_gob dst zs zd rs hs hd k
+
+/-- **… on a CSV input cut at any record boundary** -/
+theorem encode_cmd_cut_csv (dst : Codec) (zd : Zone) (rs : List Result)
+    (hs : ∀ r ∈ rs, ReprCSVResult r) (hd : ∀ r ∈ rs, ReprFor dst zd (csvDecoded r)) (m : Nat) :
+    (encodeCmd .csv dst zd ((encodeCSVAll rs).take (encodeCSVAll (rs.take m)).length)).2 = true ∧
+    decodeWith dst (encodeCmd .csv dst zd ((encodeCSVAll rs).take (encodeCSVAll (rs.take m)).length)).1 =
+      ((rs.take m).map (decodedBy dst ∘ csvDecoded), .eof) :=
+  encodeCmd_cut_csv dst zd rs hs hd m
+
+/-! non-vacuity -/
+example : (encCalls .json {} [(.utc, exGood), (.utc, exLate), (.utc, exGood)]).2 = [true, false, false] ∧
+    (encCalls .gob {} [(.utc, exGood), (.fixed (-60), exGood), (.utc, exGood)]).2 = [true, false, true] := by decide
+example : ∃ ps, valueFrames .utc [cmdExample] = some ps ∧ ps.length = 1 ∧
+    decodeWith .csv (encodeCmd .gob .csv .utc ((encodeFrames (preFrames ++ ps)).take 300)).1 =
+      (([cmdExample].take ((cutFrames (preFrames ++ ps) 300).1.length - 4)).map (decodedBy .csv ∘ gobDecoded), .eof) ∧ True := by
+  obtain ⟨ps, h1, h2, h3, _⟩ := encode_cmd_cut_gob .csv .utc .utc [cmdExample]
+    (by intro r hr; simp at hr; subst hr; exact ⟨cmdExample_gob, trivial⟩)
+    (by intro r hr; simp at hr; subst hr; exact cmdExample_csv) 300
+  exact ⟨ps, h1, by simpa using h2, h3, trivial⟩
+
+end CallSequences
 
 /-! ### regenerated facts: how records reach the writer -/
 
